@@ -452,8 +452,16 @@ CHECKS = {
                        "without the code: a rogue dialer after 0-3 genuine connections, a rogue listener the sender is pointed at, and a "
                        "relay that terminates the sender's TLS session and opens its own to the receiver (messages relayed verbatim); no "
                        "such connection may appear in a returned list, and the failing peer receives nothing beyond the 50-byte "
-                       "authentication message."),
-        "level_note": "Assumes HMAC-SHA256 and the TLS exporter are sound; the attacker family is finite and generated. For the primary connection the clause 'no manifest byte before authentication' is wiring inside runICEQUICTransfer/runTransfer and is not exercised (see DESIGN.md 8.6); for extra connections it is checked at the two functions that add them.",
+                       "authentication message. Unit 'srv' (TestVerifC08E2E) runs thruserv, `thru host` and `thru join` built from the "
+                       "tree under test as processes with an attacker on the network path who does not hold the code (the receiver's "
+                       "candidate list is rewritten in signaling so that the peers meet only through the attacker's UDP port). Every "
+                       "generated case (tree, 1-4 connections) meets five attacker behaviours: forward everything (control: the transfer "
+                       "must succeed), forward the primary flow and terminate every additional flow as a QUIC endpoint of its own with a "
+                       "second TLS session to the receiver (stream bytes copied verbatim), terminate every flow, answer in the receiver's "
+                       "place (authentication message reflected), dial the receiver in the sender's place and send a tree of its own. "
+                       "Oracle: a flow whose halves are different TLS sessions carries nothing beyond the authentication exchange, the "
+                       "receiver writes nothing it got from the attacker, and a join that exits 0 holds exactly the hosted tree."),
+        "level_note": "Assumes HMAC-SHA256 and the TLS exporter are sound; the attacker family is finite and generated. The wiring inside runICEQUICTransfer/runTransfer (which connection is authenticated with which keying material, and that nothing is sent or accepted after a failed authentication) is exercised only by unit 'srv' with the real binaries, i.e. over the attacker behaviours listed there; the exhaustive alteration classes run against authenticateTransport and the two functions that add extra connections.",
         "technique": "exhaustive single-bit/truncation mutation of the handshake messages + generated attacker strategies (rapid) against the real handshake over real QUIC/TLS sessions",
         "rule": ("case = code pair | alteration (message, bit or cut) | (attacker position, strategy, honest code); non-trivial = the honest "
                  "side got a well-formed message and had to decide by MAC/role/version (all alteration and attacker cases) or a code pair; "
@@ -463,6 +471,9 @@ CHECKS = {
             {"name": "app", "pkg": "./internal/app", "run": "^TestVerifC08",
              "quick": {"checks": 36, "shards": 8, "timeout": 900},
              "thorough": {"checks": 600, "shards": 16, "timeout": 3400}},
+            {"name": "srv", "pkg": "./internal/verifsrv", "run": "^TestVerifC08", "binaries": ["thruserv", "thru"],
+             "quick": {"checks": 2, "shards": 4, "timeout": 900},
+             "thorough": {"checks": 8, "shards": 8, "timeout": 3400}},
         ],
     },
     "C09": {
